@@ -232,11 +232,34 @@ def exception_classes():
 _EXC = None
 
 
-def make_exc(name):
+def make_exc(name, msg="text"):
     global _EXC
     if _EXC is None:
         _EXC = exception_classes()
-    return _EXC[name](f"injected {name}")
+    cls = _EXC[name]
+    try:
+        if msg == "empty":
+            return cls("")
+        if msg == "noargs":
+            return cls()
+        if msg == "multiline":
+            return cls("\n\ninjected\n  second line {0} %s %(x)d\n")
+        if msg == "nonstr":
+            return cls(("tuple", 3), None)
+        if msg == "badstr":
+            e = cls("injected")
+            e.args = (_BadStr(),)
+            return e
+    except Exception:  # noqa: BLE001  (classes whose constructor needs particular arguments)
+        pass
+    return cls(f"injected {name}")
+
+
+class _BadStr:
+    def __str__(self):
+        raise ValueError("str() of the exception argument fails")
+
+    __repr__ = __str__
 
 
 def base_array(o):
@@ -378,6 +401,13 @@ def all_faults():
     for e in _EXC:
         for st in STAGES:
             fs.append({"kind": "raise", "stage": st, "exc": e})
+        for m in ("empty", "noargs"):
+            fs.append({"kind": "raise", "stage": "run", "exc": e, "msg": m})
+    for e in ("RuntimeError", "NotImplementedError", "BackendBoom", "ort.Fail", "KeyError"):
+        for st in STAGES:
+            for m in ("empty", "noargs", "multiline", "nonstr", "badstr"):
+                if e in _EXC:
+                    fs.append({"kind": "raise", "stage": st, "exc": e, "msg": m})
     for p in PAYLOADS:
         for idx in (0, 1):
             fs.append({"kind": "ret", "payload": p, "idx": idx})
@@ -395,7 +425,7 @@ def fault_label(f):
     if f is None or f.get("kind") == "pass":
         return "pass"
     if f["kind"] == "raise":
-        return f"raise@{f['stage']}:{f['exc']}"
+        return f"raise@{f['stage']}:{f['exc']}" + (":" + f["msg"] if f.get("msg") else "")
     return "ret:" + "/".join(str(f[k]) for k in ("struct", "names", "payload") if k in f)
 
 
@@ -428,7 +458,7 @@ class Injector:
                 f = inj.fault
                 if f and f["kind"] == "raise" and f["stage"] == "ctor":
                     self.rec["raised"] = f["exc"]
-                    raise make_exc(f["exc"])
+                    raise make_exc(f["exc"], f.get("msg", "text"))
                 try:
                     self.real = self._make(model, *a, **k)
                     self.real_names = self._real_names()
@@ -441,7 +471,7 @@ class Injector:
                 f = inj.fault
                 if f and f["kind"] == "raise" and f["stage"] == "names":
                     self.rec["raised"] = f["exc"]
-                    raise make_exc(f["exc"])
+                    raise make_exc(f["exc"], f.get("msg", "text"))
                 names = list(self.real_names)
                 mode = (f or {}).get("names")
                 if mode == "rename":
@@ -461,7 +491,7 @@ class Injector:
                 f = inj.fault
                 if f and f["kind"] == "raise" and f["stage"] == "run":
                     self.rec["raised"] = f["exc"]
-                    raise make_exc(f["exc"])
+                    raise make_exc(f["exc"], f.get("msg", "text"))
                 try:
                     outs = list(self.real.run(None, feed))
                 except Exception as e:
